@@ -216,3 +216,26 @@ FAMILIES = {
 
 
 GRAD_RESOLUTION.update({"radialquartic": rq_gres, "multiwell": mw_gres})
+
+
+# -- naive softplus sum log(1+exp(x)) - c.x: smooth and convex, but its floating-point evaluation overflows for x > 709
+# (value inf, gradient inf/inf = NaN) -- a far trial point has a NaN gradient although the function is harmless --------
+def sp_value(x, d):
+    return float(onp.sum(onp.logaddexp(0.0, x)) - d["c"] @ x)
+
+
+def sp_grad(x, d):
+    with onp.errstate(over="ignore"):
+        return 1.0 / (1.0 + onp.exp(-x)) - d["c"]
+
+
+def sp_resolution(x, d):
+    return float(onp.sum(onp.abs(onp.logaddexp(0.0, x))) + onp.abs(d["c"]) @ onp.abs(x))
+
+
+def sp_gres(x, d):
+    return onp.ones_like(x) + onp.abs(d["c"])
+
+
+FAMILIES["softplus"] = (sp_value, sp_grad, sp_resolution)
+GRAD_RESOLUTION["softplus"] = sp_gres
